@@ -155,7 +155,12 @@ def check_case(ctx, case, pending):
     # every recorded insert/delete of this run on the Lean model (the special modules and patches of this runner -
     # encodings, .bss, aligned data, added functions with cold parts - do not come up in the shared campaign)
     recs = [r for r in o["rec"].records if "after" in r and not r.get("raised")]
-    if recs and ctx.driver_ok:
+    # (bounded in the thorough tier: the shared campaign replays the same kind of operations by the tens of thousands;
+    # the cases that only this runner produces - added functions, aligned data - are always replayed)
+    done = getattr(ctx, "_c05_corr", 0)
+    special = bool(case.get("insert_functions")) or any(".balign" in e.get("asm", "") or ".align" in e.get("asm", "") for e in case.get("edits", []))
+    if recs and ctx.driver_ok and (special or done < 12000):
+        ctx._c05_corr = done + len(recs)
         try:
             ans = ask_driver([{"op": "ir_op", "ir": r["before"], "do": r["do"]} for r in recs])
         except Exception as e:  # noqa: BLE001
